@@ -146,9 +146,15 @@ func (g *Gen) arg() string {
 	case x < 85:
 		return "pre{env:" + g.pick(EnvKeys) + "}post{env:UNSET}"
 	case x < 88:
-		return `"{"`
+		if g.Chaos > 0 {
+			return `"{"`
+		}
+		return `"{x"`
 	case x < 91:
-		return `"}" x`
+		if g.Chaos > 0 {
+			return `"}" x`
+		}
+		return `"}x"`
 	case x < 93:
 		return "x$()"
 	case x < 96:
